@@ -6,7 +6,8 @@ package c16
 //   <mode> <env> (heap (cell val)...) (threads (<op>...)...) (sched tid...)
 //   <op> = (Name arg (r cell...) (w (cell val)...))
 //
-// mode "seq": the operations are executed one at a time in the order given by
+// mode "frozen": as "seq", on a copy of the environment whose shared state lies
+// in read-only memory (freeze.go); mode "seq": the operations are executed one at a time in the order given by
 // the schedule (each operation's steps are contiguous in it); mode "conc":
 // every thread is a goroutine of the race-enabled worker, the schedule is one
 // of the interleavings the model is asked about.
@@ -93,7 +94,7 @@ func parseCase(line string) (*caseT, error) {
 	if c.Mode, err = vlib.AsAtom(items[0]); err != nil {
 		return nil, err
 	}
-	if c.Mode != "seq" && c.Mode != "conc" {
+	if c.Mode != "seq" && c.Mode != "conc" && c.Mode != "frozen" {
 		return nil, fmt.Errorf("bad mode %q", c.Mode)
 	}
 	if c.Env, err = vlib.AsAtom(items[1]); err != nil {
